@@ -5,9 +5,9 @@
    (bit patterns from the AST against an independent correctly rounded conversion, see lib/props/c07.py).
    What IS modelled is the one thing property C07 asks beyond rounding - "finite or rejected":
      * the token grammar (float_value / hexfloat of cddl.pest) as a splitter into sign, digits and exponent,
-     * the class of the stored value for a decimal float: str::parse::<f64>() never fails on these tokens and
+     * the class of the parsed value for a decimal float: str::parse::<f64>() never fails on these tokens and
        returns an infinity exactly when round-to-nearest-even overflows (assumed contract of the standard library,
-       checked differentially), so the stored value is FInfinite when the magnitude is >= 2^1024 - 2^970.
+       checked differentially), i.e. when the magnitude is >= 2^1024 - 2^970; the bridge then rejects it.
    No proofs in this file. *)
 From Cddl Require Import Base.Bytes Lit.IntLit Lit.Grammar.
 Open Scope N_scope.
@@ -123,9 +123,17 @@ Definition overflows_exec (m : N) (e : Z) : bool :=
   else (overflow_threshold * 10 ^ (- e) <=? Z.of_N m)%Z.
 
 Inductive float_class := FFinite | FInfinite.
-(* class of the value stored by  inner.as_str().parse::<f64>()  for a float_value token *)
-Definition float_model_class (s : list N) : option float_class :=
+(* class of  inner.as_str().parse::<f64>()  for a float_value token (contract of the standard library: correctly
+   rounded, overflow gives an infinity) *)
+Definition parsed_class (s : list N) : option float_class :=
   match split_float s with
   | Some f => Some (if overflows_exec (df_mantissa f) (df_exp10 f) then FInfinite else FFinite)
   | None => None
+  end.
+(* convert_number_to_type2, Rule::float_value arm (since 4743917):  .ok().filter(|v| v.is_finite()).ok_or_else(Err)
+   Some FFinite: a finite value is stored;  None: "Invalid float" (also for a text that is not a float token) *)
+Definition float_model_class (s : list N) : option float_class :=
+  match parsed_class s with
+  | Some FFinite => Some FFinite
+  | _ => None
   end.
